@@ -176,4 +176,15 @@ META["C18"] = dict(
         "info, reload counter, last-reload time and the liveness of an old session with the model it runs itself.",
    technique="TLA+ spec (CertReload.tla) + TLC enumeration of all 4-step histories replayed on a real CertReloader + TLC trace validation",
    design_ref="DESIGN.md 3/C18")
+META["C19"] = dict(
+   text="SchemePush.tla states the negotiation (a session announces the digest of the scheme new sessions start from; the server "
+        "pushes iff it differs; a parseable push becomes that scheme, an unparseable one changes nothing). MC_SchemePush enumerates "
+        "all histories of 4 sessions against servers with 4 schemes, with the built-in default used before or not; the model of "
+        "the pinned code (set-once default, client-fixed scheme) must violate LaterSessionsAnnounceIt. Because the state is "
+        "process-wide, each history runs in a fresh child process: a real Client against a scripted TLS server (announced digests, "
+        "a second request on every pushed session), validated by Trace_SchemePush.tla which runs AfterSession itself; and "
+        "in-memory sessions pushed between two packets, whose later packets are validated by Trace_Padding.tla under the scheme "
+        "the reference says is in force.",
+   technique="TLA+ spec (SchemePush.tla + Padding.tla) + TLC enumeration of all histories, each replayed in a fresh process + TLC trace validation (two validators)",
+   design_ref="DESIGN.md 3/C19")
 NOT_YET = "check not built yet in this round (planned: DESIGN.md section 3); not claimed"
